@@ -199,6 +199,12 @@ func (k *c18Kernel) do(o *c18Op, r *gen.Rand) {
 			}
 			o.Res, o.Got = "data", append([]byte{}, op.Dst[:op.BytesRead]...)
 		}
+		if o.Kind != "read" && o.Off%2 == 0 { // an fsync before the close, for about half of the modifications
+			if err := k.ops.SyncFile(ctx, &fuseops.SyncFileOp{Inode: ino}); err != nil {
+				o.Res = c18Err(err)
+				return
+			}
+		}
 		_ = k.ops.FlushFile(ctx, &fuseops.FlushFileOp{Inode: ino})
 		_ = k.ops.ReleaseFileHandle(ctx, &fuseops.ReleaseFileHandleOp{})
 	case "lookup":
@@ -655,6 +661,7 @@ func init() {
 					c18InodeEmit(c, cs.Inode)
 					continue
 				}
+				c.Pending(&cs)
 				c18Run(&cs, r)
 				emit(&cs)
 			}
@@ -843,6 +850,7 @@ func init() {
 				}
 				cs.Ops = append(cs.Ops, o)
 			}
+			c.Pending(cs)
 			c18Run(cs, r)
 			emit(cs)
 		}
